@@ -148,6 +148,21 @@ def lemmas(reg):
               inputs=x1.comps() + x2.comps() + x3.comps())
 
 
+# ---- which force routines an iteration applies to a cell, and on which cache --------------------------------------------------------------------------
+def force_stage(qn, tag):
+    def on_call(C, st):
+        st.ghost['force_stages'] = st.ghost.get('force_stages', ()) + (tag,)
+    return Contract(qn, PROP, frame=lambda C: [('*', None)], on_call=on_call, assumed=True, name=qn + ' (any effect; call recorded)')
+
+
+def post_force_stages(C):
+    if C.outcome not in (None, 'ret', 'end'): return []
+    got = tuple(C.post_state.ghost.get('force_stages', ()))
+    want = ('cache', 'pressure', 'tension', 'bending', 'angles')
+    return [('the-face-cache-is-refreshed-first-then-each-force-routine-is-applied-exactly-once', z3.BoolVal(got == want))]
+
+
+
 def build(reg):
     reg.add(Contract('cell::apply_pressure_on_surface', PROP, pre=face_pre, post=post_pressure, slice_loop=0, safety={'bounds'},
                      name='cell::apply_pressure_on_surface::<per-face body>'))
@@ -157,6 +172,15 @@ def build(reg):
                      name='cell::apply_surface_tension_and_membrane_elasticity::<prologue>'))
     reg.add(Contract('cell::get_angle_gradient', PROP, post=post_angle_gradient, name_locals=1))
     lemmas(reg)
+    reg.add(Contract('cell::apply_internal_forces', PROP, post=post_force_stages, name='cell::apply_internal_forces::<which forces, on which cache>', use=[
+        force_stage('cell::update_all_face_normals_and_areas', 'cache'), force_stage('cell::apply_pressure_on_surface', 'pressure'),
+        force_stage('cell::apply_surface_tension_and_membrane_elasticity', 'tension'), force_stage('cell::apply_bending_forces', 'bending'),
+        force_stage('cell::regularize_all_face_angles', 'angles'),
+        Contract('cell::compute_area', PROP, frame=lambda C: [], assumed=True, name='cell::compute_area (reads only)'),
+        Contract('cell::compute_volume', PROP, frame=lambda C: [], assumed=True, name='cell::compute_volume (reads only)'),
+        Contract('cell::update_target_volume', PROP, frame=lambda C: [('cell.target_volume_', None)], assumed=True, name='cell::update_target_volume (C04)'),
+        Contract('cell::update_pressure', PROP, frame=lambda C: [('cell.pressure_', None), ('cell.pressure_energy_', None)], assumed=True, name='cell::update_pressure (C04)'),
+        Contract('cell::compute_node_curvature_and_normals', PROP, frame=lambda C: [('*', None)], assumed=True, name='cell::compute_node_curvature_and_normals (any effect)')]))
 
 
 # The hinge (bending) forces and the angle-regularisation forces are not under a deductive contract (cot / acos / sin / cos of the
